@@ -233,11 +233,31 @@ pub fn check(tier: &str) -> i32 {
     ];
     paths.extend(extra);
     let kinds = kinds();
-    let work: Vec<(usize, usize)> = (0..roots.len()).flat_map(|r| (0..paths.len()).map(move |p| (r, p))).collect();
+    // persistence: the same probes in a fresh process after the history, with a short and with a long
+    // (> 8 KiB) authorisation log written between the user's creation and the actions
+    let persist_paths: Vec<(St, Vec<Act>)> = [vec![Act::RevokeKey], vec![Act::GrantR, Act::RevokeR], vec![Act::GrantW, Act::RevokeW], vec![Act::GrantR12], vec![Act::GrantR, Act::RevokeKey]]
+        .into_iter()
+        .map(|p| (p.iter().fold(init, |s, a| step(s, *a)), p))
+        .collect();
+    let n_plain = paths.len();
+    paths.extend(persist_paths.iter().cloned());
+    paths.extend(persist_paths.iter().cloned());
+    let n_persist = persist_paths.len();
+    // (root, path, filler records, restart before the probes)
+    let mut work: Vec<(usize, usize, usize, bool)> = (0..roots.len()).flat_map(|r| (0..n_plain).map(move |p| (r, p, 0usize, false))).collect();
+    for r in [0usize, 3] {
+        for j in 0..n_persist {
+            work.push((r, n_plain + j, 0, true));
+            work.push((r, n_plain + n_persist + j, 160, true));
+        }
+    }
     // (class, example, executed_without_right)
-    let res = par_map(&work, threads(), |wi, (ri, pi)| -> Result<(Vec<(String, String)>, usize, usize, bool), String> {
+    let res = par_map(&work, threads(), |wi, (ri, pi, filler, restart)| -> Result<(Vec<(String, String)>, usize, usize, bool), String> {
         let root = &roots[*ri];
-        let (st, path) = &paths[*pi];
+        let (st0, path) = &paths[*pi];
+        // sessions do not survive a restart
+        let st_restart = St { tok: Tok::None, ..*st0 };
+        let st = if *restart { &st_restart } else { st0 };
         let u = root.user;
         let mut ops = vec![
             as_admin("DEFINE t1 FIELDS { k: \"int\", s: \"string\" }"),
@@ -249,6 +269,9 @@ pub fn check(tier: &str) -> i32 {
         ];
         let create_idx = ops.len();
         ops.push(as_admin(&if root.role.is_empty() { format!("CREATE USER {u} WITH KEY \"{UKEY}\"") } else { format!("CREATE USER {u} WITH KEY \"{UKEY}\" WITH ROLES [\"{}\"]", root.role) }));
+        for i in 0..*filler {
+            ops.push(as_admin(&format!("CREATE USER filler{i} WITH KEY \"filler-key-{i}\"")));
+        }
         for a in path {
             match a {
                 Act::GrantR => ops.push(as_admin(&format!("GRANT READ ON t1 TO {u}"))),
@@ -298,7 +321,23 @@ pub fn check(tier: &str) -> i32 {
             ops,
             ..Default::default()
         };
-        let r = crate::explore::run_child(&job, &scratch.dir.join(format!("w{wi}/job.json")))?;
+        let r = if *restart {
+            // everything up to the probes' connection-scoped AUTH runs in a first process
+            let split = probe_base - 1;
+            let lives = vec![LifeSpec { ops: job.ops[..split].to_vec(), snap: crate::job::SnapMode::Off, fsmon: false }, LifeSpec { ops: job.ops[split..].to_vec(), snap: crate::job::SnapMode::Off, fsmon: false }];
+            let mut rr = run_lifetimes_clock(&scratch.dir.join(format!("w{wi}")), &job.cfg, job.entropy, &lives, 0)?;
+            for x in &rr {
+                if let Some(e) = &x.error {
+                    return Err(e.clone());
+                }
+            }
+            let second = rr.pop().unwrap();
+            let mut first = rr.pop().unwrap();
+            first.steps.extend(second.steps);
+            first
+        } else {
+            crate::explore::run_child(&job, &scratch.dir.join(format!("w{wi}/job.json")))?
+        };
         let _ = std::fs::remove_dir_all(scratch.dir.join(format!("w{wi}")));
         if let Some(e) = &r.error {
             return Err(e.clone());
@@ -368,15 +407,21 @@ pub fn check(tier: &str) -> i32 {
                     };
                     out.push((format!("{kind} executed after the needed permission was revoked (user with a granting role){variant}"), format!("user {u:?} role {role:?} state {st:?} path {path:?}: {kind} via {f:?} was executed although the last permission command was an acknowledged REVOKE")));
                 }
+                // classes that are listed findings keep their name; anything else seen only after a restart says so
+                let suffix = if *restart { format!(" [after a restart{}]", if *filler > 0 { ", long authorisation log" } else { "" }) } else { String::new() };
+                let name = |c: String| if kf.is_known("C13", &c) { c } else { format!("{c}{suffix}") };
                 if executed && !(authenticated && permitted) {
                     let why = if !authenticated { format!("without valid authentication ({f:?})") } else { format!("without the required permission ({need:?})") };
                     let idclass = if u == "bypass" { " [user id \"bypass\"]".to_string() } else { String::new() };
                     out.push((
-                        format!("{kind} executed {}{idclass}", if !authenticated { "without valid authentication".to_string() } else { format!("without {need:?} permission") }),
+                        name(format!("{kind} executed {}{idclass}", if !authenticated { "without valid authentication".to_string() } else { format!("without {need:?} permission") })),
                         format!("user {u:?} role {role:?} state {st:?} path {path:?}: {kind} via {f:?} was executed {why}"),
                     ));
                 }
             }
+        }
+        if *restart && std::env::var("VERIF_DEBUG").is_ok() {
+            eprintln!("DEBUG restart root={} path={:?} filler={} executed={}", root.role, path, filler, executed_n);
         }
         Ok((out, judged, executed_n, true))
     });
